@@ -69,9 +69,10 @@ Definition pop_round (now : Z) (w : writer) : outcome * writer * list pkt :=
     | [] => ([], [], pubout w)
     | p :: r => ([p], r, store (pid p) p (pubout w))
     end in
-  (* 2. one QoS 1/2 publish if quota is available *)
+  (* 2. one QoS 1/2 publish if quota is available - and nothing waits for retransmission: what was sent before
+        (in an earlier connection) goes out again before anything that has never been sent *)
   let r2 :=
-    match q12 w with
+    match (match qrel w with [] => q12 w | _ :: _ => [] end) with
     | p :: r =>
         if quota_available (fl w) then
           match acquire (fl w) with
@@ -84,7 +85,7 @@ Definition pop_round (now : Z) (w : writer) : outcome * writer * list pkt :=
           | OutOfFuel => (Stuck 1, fl w, q12 w, out1, [])
           end
         else (Fine, fl w, q12 w, out1, [])
-    | [] => (Fine, fl w, [], out1, [])
+    | [] => (Fine, fl w, q12 w, out1, [])
     end in
   let '(oc, f2, q12', out2, o2) := r2 in
   (* 3. one QoS 0 publish *)
@@ -124,7 +125,11 @@ Definition close (now : Z) (w : writer) : writer :=
   mkWriter (fl w) [] [] [] [] false
     (p_q0 w ++ (if offq0 w then flat_map (enc_queued now) (q0 w) else []))
     (p_q12 w ++ flat_map (enc_queued now) (q12 w))
-    (p_unack w ++ map enc_unack (qrel w) ++ map (fun x => enc_unack (snd x)) (pubout w))
+    (* what has been transmitted in this connection, oldest transmission first ([pubout] holds the latest first), then
+       what still waits for its retransmission: a PUBLISH that waits there was sent (in an earlier connection) AFTER
+       everything this connection has sent again, and before anything it has sent for the first time - which, with
+       retransmissions served first, is nothing while they wait *)
+    (p_unack w ++ map (fun x => enc_unack (snd x)) (rev (pubout w)) ++ map enc_unack (qrel w))
     (offq0 w).
 
 (* ---- open: a new writer over what persistence holds ---- *)
